@@ -13,6 +13,7 @@ from jedi.inference.names import ParamName, TreeNameDefinition, AnonymousParamNa
 from jedi.inference.base_value import NO_VALUES, ValueSet, ContextualizedNode
 from jedi.inference.value import iterable
 from jedi.inference.cache import inference_state_as_method_param_cache
+from jedi.parser_utils import get_function_name
 
 
 def try_iter_content(types, depth=0):
@@ -314,7 +315,7 @@ def _iterate_star_args(context, array, input_node, funcdef=None):
         if funcdef is not None:
             # TODO this funcdef should not be needed.
             m = "TypeError: %s() argument after * must be a sequence, not %s" \
-                % (funcdef.name.value, array)
+                % (get_function_name(funcdef), array)
             analysis.add(context, 'type-error-star', input_node, message=m)
     try:
         iter_ = array.py__iter__
@@ -335,6 +336,6 @@ def _star_star_dict(context, array, input_node, funcdef):
     else:
         if funcdef is not None:
             m = "TypeError: %s argument after ** must be a mapping, not %s" \
-                % (funcdef.name.value, array)
+                % (get_function_name(funcdef), array)
             analysis.add(context, 'type-error-star-star', input_node, message=m)
         return {}
